@@ -119,8 +119,42 @@ fn e2e_scenario(seed: u64, i: usize, tier: Tier) -> Outcome {
     };
     let dist = topo.distance();
     let mut wcfg = world_cfg(topo, seed ^ i as u64);
+    // route change: after a few rounds the path to the same target becomes longer or shorter and
+    // then stays as it is.  Both paths answer everywhere and quickly and the in-flight window
+    // covers them, so that the target can be rediscovered within a single round.
+    let mut reroute: Option<(usize, u8)> = None;
+    if stable && r.chance(1, 3) {
+        let lo = u64::from(tcfg.first_ttl).max(1);
+        let hi = u64::from(tcfg.max_ttl).min(lo + 18);
+        let d1 = r.range(lo, hi) as usize;
+        let mut d2 = r.range(lo, hi) as usize;
+        if d2 == d1 {
+            d2 = if d1 as u64 > lo { d1 - 1 } else { d1 + 1 };
+        }
+        if d2 as u64 <= hi && hi > lo {
+            tcfg.max_inflight = 24;
+            tcfg.max_rounds = Some(tcfg.max_rounds.unwrap_or(8).max(12));
+            let mk = |d: usize, salt: usize| {
+                let hops: Vec<HopSpec> = (0..d - 1)
+                    .map(|h| {
+                        let mut s = HopSpec::simple(scen::hop_addr(cell.v6, h, salt), 200_000 + 10_000 * h as u64);
+                        s.quote = Quote::Full;
+                        s
+                    })
+                    .collect();
+                let mut t = HopSpec::simple(tcfg.target, 900_000);
+                t.quote = Quote::Full;
+                Topology { hops, target: t, tcp: TcpMode::Rst }
+            };
+            wcfg.topo = mk(d1, 0);
+            let switch_round = r.range(2, 4) as usize;
+            wcfg.reroutes.push((switch_round as u64 * 40_000_000 + 17_000_000, mk(d2, 1)));
+            reroute = Some((switch_round, d2 as u8));
+        }
+    }
+    let dist = if reroute.is_some() { wcfg.topo.distance() } else { dist };
     // outages: whole rounds in which nothing answers, after rounds in which something did
-    if r.chance(1, 3) {
+    if reroute.is_none() && r.chance(1, 3) {
         let from = r.range(1, 5) * 40_000_000;
         wcfg.blackouts.push((from, from + r.range(1, 3) * 40_000_000));
     }
@@ -153,7 +187,21 @@ fn e2e_scenario(seed: u64, i: usize, tier: Tier) -> Outcome {
     }
     // stable answering path: once the target's response to the probe at its true distance has been
     // read, the path length is that distance
-    if stable {
+    if let Some((switch_round, d2)) = reroute {
+        // three rounds after the route changed the hop table must end at the new distance
+        for round in run.rounds.iter().filter(|r| r.index >= switch_round + 4) {
+            o.hit("path_length_follows_a_route_change");
+            if round.largest_ttl != d2 {
+                o.violate(
+                    "path_length_follows_a_route_change",
+                    site.clone(),
+                    format!("round {}: path length {} although the route changed in round {switch_round} from distance {dist} to {d2} and has been stable, answering everywhere, since", round.index, round.largest_ttl),
+                    replay.clone(),
+                );
+                break;
+            }
+        }
+    } else if stable {
         let views = crate::oracles::round_views(&w, &a, &tcfg);
         let mut established = false;
         for (round, v) in run.rounds.iter().zip(&views) {
@@ -259,12 +307,12 @@ fn synthetic(seed: u64, i: usize) -> Outcome {
 
 pub fn run(tier: Tier, seed: u64, only: Option<String>) -> i32 {
     let mut rep = Report::new("C10", "exploration", tier, seed);
-    rep.rule = "e2e scenario = cell x (first-ttl in {1,2,3,6,12}, max-ttl = first + 0..20, inflight in {1,4,24}) x (stable answering path of length 1..25 with silent routers | hostile random topology | nothing answers); after every published round the snapshot's hop list, target hop, is_target / is_in_round flags are checked for the default flow, and every query is executed for every registered flow under catch_unwind; synthetic scenario = up to 25 rounds through State::update_from_round with arbitrary probe mixes and arbitrary path lengths (0..254, not tied to the probes); distinct by (cell, ttl window, distance, kind)".into();
+    rep.rule = "e2e scenario = cell x (first-ttl in {1,2,3,6,12}, max-ttl = first + 0..20, inflight in {1,4,24}) x (stable answering path of length 1..25 with silent routers | a route change to a longer or shorter path after 2..4 rounds, both paths answering everywhere | hostile random topology | nothing answers); after every published round the snapshot's hop list, target hop, is_target / is_in_round flags are checked for the default flow, and every query is executed for every registered flow under catch_unwind; synthetic scenario = up to 25 rounds through State::update_from_round with arbitrary probe mixes and arbitrary path lengths (0..254, not tied to the probes); distinct by (cell, ttl window, distance, kind)".into();
     rep.assumptions = vec![
         "the latest / greatest path length are taken from the published Round.largest_ttl values; largest_ttl itself is recomputed from genuine accepted responses (bookkeeping model) and, on stable answering paths, compared with the topology's true distance".into(),
         "synthetic path lengths are zero or at least the lowest ttl probed so far (a smaller value is outside what the strategy can publish and State::hops() panics on it: slice index starts at lowest-1 but ends at the path length; reported in DESIGN.md as out of the property's scope)".into(),
     ];
-    rep.required_clauses = vec![
+    rep.required_clauses = vec!["path_length_follows_a_route_change", 
         "queries_never_fail",
         "window_is_lowest_probed_to_max_path_length",
         "target_hop_is_latest_path_length",
